@@ -5,6 +5,7 @@ import (
 	"fmt"
 	"io"
 	"os"
+	"path"
 	"path/filepath"
 	"strings"
 
@@ -102,4 +103,23 @@ func FsPath(path string, flags FsFlags) (afero.Fs, error) {
 	}
 
 	return afero.NewBasePathFs(afero.NewOsFs(), path), nil
+}
+
+// removeEmptyDirs removes dir and each of its parents below root for as long
+// as they are empty. Paths are slash-separated and relative to fs.
+func removeEmptyDirs(fs afero.Fs, root, dir string) {
+	root, dir = path.Clean(root), path.Clean(dir)
+	for dir != root && dir != "." && dir != "/" {
+		if root != "." && !strings.HasPrefix(dir, root+"/") {
+			return
+		}
+		entries, err := afero.ReadDir(fs, filepath.FromSlash(dir))
+		if err != nil || len(entries) > 0 {
+			return
+		}
+		if err := fs.Remove(filepath.FromSlash(dir)); err != nil {
+			return
+		}
+		dir = path.Dir(dir)
+	}
 }
